@@ -109,6 +109,12 @@ end PP.Parse
 
 namespace PP.Parse
 
+/-- a soft (backtrackable) failure: `ParseException` or a raw `IndexError` -/
+def Out.soft : Out → Bool
+  | .fail .parse _ => true
+  | .idx => true
+  | _ => false
+
 def Out.isOk : Out → Bool
   | .ok _ _ => true
   | _ => false
